@@ -18,7 +18,7 @@ func prop(id string, rules []string, explanation, notDecided string, extra ...st
 var frozenMin = map[string]int{
 	"P-API-FORMS": 300, "P-ATOMIC-WRITE": 9, "P-CLONE": 2, "P-COMMENT": 4, "P-CTOR": 9, "P-DICT": 7, "P-ERR-PROP": 40,
 	"P-FILERENDER-ORDER": 4, "P-FORMAT-GATE": 10, "P-FRAGMENT": 7, "P-GROUPRENDER": 11, "P-IMPORTBLOCK": 5, "P-ISNULL": 13,
-	"P-LITCTOR": 10, "P-LOCALDOT": 1, "P-MAPRANGE": 5, "P-NILGUARD": 10, "P-REGISTER": 10, "P-RENDERITEMS": 5, "P-STMTRENDER": 2,
+	"P-LITCTOR": 10, "P-LOCALDOT": 0, "P-MAPRANGE": 5, "P-NILGUARD": 10, "P-REGISTER": 10, "P-RENDERITEMS": 5, "P-STMTRENDER": 2,
 	"P-TAG": 6, "P-TOKEN": 5, "P-VALIDALIAS": 1, "T-CONSTRUCTS": 280, "T-GENNAMES": 4, "T-KEYWORDS": 70, "T-LITFMT": 36,
 	"T-REGEX": 4, "T-RESERVED": 66, "T-STDHINTS": 160, "T-TOKCONTENT": 50, "W-CALLBACK": 90, "W-FS-EFFECTS": 3, "W-GLOBALS-RO": 1,
 	"W-IMPORTS-WRITERS": 5, "W-ISNULL-PURE": 6, "W-NO-CONCURRENCY": 3, "W-NONDET-API": 2, "W-PANICS": 6, "W-REGISTER-CALLERS": 2,
